@@ -135,7 +135,7 @@ def _arms(repo, m, func_node) -> list[tuple[str, list[str], ast.AST]]:
 def kind_tables(ctx, rep, rule: str) -> None:
     repo = ctx.repo
     om = repo.cls(OM)
-    sd, ld = om.methods["state_dict"], om.methods["load_state_dict"]
+    sd, ld = repo.meth(om, "state_dict"), repo.meth(om, "load_state_dict")
     save = A.worker(repo, sd)
     load = A.worker(repo, ld)
     wa = _arms(repo, save.module, save.node)
@@ -190,7 +190,7 @@ def in_place_loading(ctx, rep, rule: str) -> None:
     repo = ctx.repo
     pts = ctx.engine("pts")
     om = repo.cls(OM)
-    load = A.worker(repo, om.methods["load_state_dict"])
+    load = A.worker(repo, repo.meth(om, "load_state_dict"))
     arms = {tuple(sorted(n)): a for k, n, a in _arms(repo, load.module, load.node) if k == "isinstance"}
     t_arm = arms.get(("Tensor",))
     old, new = load.params[0], load.params[1]
@@ -216,7 +216,7 @@ def in_place_loading(ctx, rep, rule: str) -> None:
     ok = len(copies) == 1 and _norm(copies[0].func.value) == f"{vvar}.detach()" and _norm(copies[0].args[0]) == f"{up.params[1]}[{kvar}]"
     rep.ob(rule, "param-state-tensor-copied-in-place", ok, up.loc(), "update_param_state_dict_object copies the loaded tensor into the existing state tensor, through detach() (works for tensors that require grad, records no autograd history)")
     # keyed lookup agreement: writer keys sequences by position (enumerate), dicts by key; the reader must look up the same keys
-    save = A.worker(repo, om.methods["state_dict"])
+    save = A.worker(repo, repo.meth(om, "state_dict"))
     w_seq = any("enumerate(value)" in _norm(c) for c in A.calls(save.node, nested=True) if isinstance(c.func, ast.Name) and c.func.id == save.name)
     w_dict = any("value.items()" in _norm(c) for c in A.calls(save.node, nested=True) if isinstance(c.func, ast.Name) and c.func.id == save.name)
     s_arm = arms.get(("list", "set", "tuple"))
@@ -246,7 +246,7 @@ def in_place_loading(ctx, rep, rule: str) -> None:
 def emission(ctx, rep, rule: str) -> None:
     repo = ctx.repo
     om = repo.cls(OM)
-    sd = om.methods["state_dict"]
+    sd = repo.meth(om, "state_dict")
     save = A.worker(repo, sd)
     start = [c for c in A.calls(sd.node) if isinstance(c.func, ast.Name) and c.func.id == save.name]
     ok = len(start) == 1 and "self.__dict__.items()" in _norm(start[0])
@@ -259,7 +259,7 @@ def emission(ctx, rep, rule: str) -> None:
     t = arms.get(("Tensor",))
     ok = t is not None and any(isinstance(n, ast.Assign) and _norm(n.targets[0]) == "destination[key]" and "value" in _norm(n.value) for s in t.body for n in ast.walk(s))
     rep.ob(rule, "tensor-arm-emits-tensor", ok, save.loc(), "every tensor value is emitted under its key (detached unless keep_vars)")
-    lsd = om.methods["load_state_dict"]
+    lsd = repo.meth(om, "load_state_dict")
     load = A.worker(repo, lsd)
     start = [c for c in A.calls(lsd.node) if isinstance(c.func, ast.Name) and c.func.id == load.name]
     ok = len(start) == 1 and "self.__dict__" in _norm(start[0]) and "state_dict" in _norm(start[0])
